@@ -19,10 +19,10 @@ var Properties = map[string]PropertyDef{
 	}},
 	"C08": {Cases: C08Cases, Config: func(tier string) Config {
 		c := Config{
-			Functions: []string{"maurer09.Protocol.ComputeProverCommitment/ComputeProverResponse/Verify/RunSimulator/Extract/ValidateStatement", "dlog/schnorr.NewProtocol", "okamoto.NewProtocol", "batch_schnorr.Protocol.*", "sigand.Compose + Protocol.*", "sigor.Compose + Protocol.*", "compiler.Compile", "fiatshamir.Protocol.NewProver/NewVerifier", "fiatshamir Prover.Prove / Verifier.Verify", "zkmodule.Prove/Verify", "algebrautils.ScalarMul (double-and-add on symbolic bases)", "elcomop.NewProtocol/NewWitness/NewStatement (Maurer09 over G×F → G², homomorphism = the real indcpacom/elgamal commitment)", "elog.NewProtocol/NewWitness/NewStatement (sigand.CartesianComposeNamed of elcomop and Schnorr)", "indcpacom.NewCommitmentKey / CommitmentKey.CommitWithWitness over elgamal.PublicKey"},
-			Bounds:    map[string]any{"elgamal proofs": "elcomop and elog with the ElGamal secret, the committed element, y, λ, the second base h and all offsets symbolic: completeness on every path for the 5 challenges, simulator, every response component shifted by δ≠0 rejected, a witness whose plaintext or nonce is shifted by δ≠0 refused by ValidateStatement and its transcript rejected, elog.NewWitness refuses y' ≠ y, ValidateStatement refuses Y ≠ h^y, Fiat–Shamir context binding", "witnesses, prover nonces, tampering offsets": "symbolic", "challenges": "5 concrete 16-byte challenges (0, 1, 2^128-1, high-bit, random)", "extractor": "arbitrary statement, commitment and responses; 10 (quick) / 20 (thorough) ordered challenge pairs", "compositions": "batch k=1..3 (5), AND k=1..3, OR n=2,3 with every witness position"},
+			Functions: []string{"maurer09.Protocol.ComputeProverCommitment/ComputeProverResponse/Verify/RunSimulator/Extract/ValidateStatement", "dlog/schnorr.NewProtocol", "okamoto.NewProtocol", "batch_schnorr.Protocol.*", "sigand.Compose + Protocol.*", "sigor.Compose + Protocol.*", "compiler.Compile", "fischlin.NewCompiler / Prover.Prove / Verifier.Verify", "randfischlin.NewCompiler / Prover.Prove / Verifier.Verify", "fiatshamir.Protocol.NewProver/NewVerifier", "fiatshamir Prover.Prove / Verifier.Verify", "zkmodule.Prove/Verify", "algebrautils.ScalarMul (double-and-add on symbolic bases)", "elcomop.NewProtocol/NewWitness/NewStatement (Maurer09 over G×F → G², homomorphism = the real indcpacom/elgamal commitment)", "elog.NewProtocol/NewWitness/NewStatement (sigand.CartesianComposeNamed of elcomop and Schnorr)", "indcpacom.NewCommitmentKey / CommitmentKey.CommitWithWitness over elgamal.PublicKey"},
+			Bounds:    map[string]any{"compilers": "fischlin and randfischlin over Schnorr (k=1) and batch Schnorr (k = 2, 5; thorough 1..5, 8, 9 — k = 5..8 makes the Fischlin challenge length a multiple of 8): the prover's hash search runs concretely over interned encodings of symbolic responses; the proof verifies in its context and is rejected under another session / transcript state / prover label / statement and when truncated, extended or empty", "elgamal proofs": "elcomop and elog with the ElGamal secret, the committed element, y, λ, the second base h and all offsets symbolic: completeness on every path for the 5 challenges, simulator, every response component shifted by δ≠0 rejected, a witness whose plaintext or nonce is shifted by δ≠0 refused by ValidateStatement and its transcript rejected, elog.NewWitness refuses y' ≠ y, ValidateStatement refuses Y ≠ h^y, Fiat–Shamir context binding", "witnesses, prover nonces, tampering offsets": "symbolic", "challenges": "5 concrete 16-byte challenges (0, 1, 2^128-1, high-bit, random)", "extractor": "arbitrary statement, commitment and responses; 10 (quick) / 20 (thorough) ordered challenge pairs", "compositions": "batch k=1..3 (5), AND k=1..3, OR n=2,3 with every witness position"},
 			Assumes:   []string{"Fiat–Shamir challenges are real transcript outputs over interned handles (random-oracle idealisation): context-binding clauses are class B", "fresh random draws non-zero"},
-			Outside:   []string{"every Paillier-/ring-based proof (paillier/*, prm, cggmp21/*): big-integer arithmetic", "Fischlin and randomised Fischlin compilers, interactive zk compiler", "byte-level malleability of encoded proofs beyond truncation/extension (C12)"},
+			Outside:   []string{"every Paillier-/ring-based proof (paillier/*, prm, cggmp21/*): big-integer arithmetic", "interactive zk compiler", "byte-level malleability of encoded proofs beyond truncation/extension (C12)"},
 		}
 		return c
 	}},
@@ -39,8 +39,9 @@ var Properties = map[string]PropertyDef{
 		c := Config{
 			Functions: []string{"dkls23 signing_bbot.NewCosigner / Cosigner.Round1–Round4", "dkls23 keygen.NewShard", "rvole/bbot Alice/Bob rounds", "ecbbot rounds", "ecdsa.NewSuite / DigestToScalar", "signing.NewCosigner", "Cosigner.Round1/Round2/Round3/ComputePartialSignature/computeEffectivePartialPublicKeys", "signing.NewAggregator/NewCosigningAggregator", "Aggregator.Aggregate", "hjky.Participant.Round1/Round2", "lindell22 dlogProve/dlogVerify (Fiat–Shamir Schnorr PoK)", "hashcom Commit/Open (real BLAKE2b over handles)", "schnorrlike.VerifierTrait.Verify", "feldman.Scheme.ConvertShareToAdditive/ConvertLiftedShareToAdditive", "kw/msp ReconstructionCoefficients", "przs.SampleZeroShare", "trusteddealer.Deal", "keygen.NewShard",
 				"boldyreva02 keygen.NewShortKeyShard/NewLongKeyShard", "boldyreva02 signing.NewShortKeyCosigner/NewLongKeyCosigner, Cosigner.ProducePartialSignature", "boldyreva02 signing.NewShortKeyAggregator/NewLongKeyAggregator, Aggregator.Aggregate", "boldyreva02.PartialSignature.Validate", "bls.Scheme.Signer/Verifier, Signer.Sign, Verifier.Verify, coreSign/coreVerify/popVerify", "feldman.Scheme.ReconstructInTheExponent"},
-			Bounds:  map[string]any{"boldyreva02": "threshold BLS over the pairing model (G1, G2, GT in discrete-log representation, e([a]g1,[b]g2)=gT^(ab); hash-to-curve outputs = fresh symbolic discrete logs, pairwise distinct): dealer randomness symbolic; keys in G1 and in G2; Basic, MessageAugmentation and POP; every protocol structure incl. the non-ideal one (a holder with two MSP rows); ≤2 quorums per structure in quick: the aggregator accepts the honest partial signatures, the result verifies under the joint key with the standard verifier of the target scheme and equals [x]·H(m); cosigner constructors refuse an unqualified quorum", "protocol": "Lindell22 with the vanilla (configurable) Schnorr variant, both response signs, Fiat–Shamir compiler, round-by-round API", "dkls23-softspoken": "the SoftSpoken variant (ECBBOT base OTs, SoftSpoken OT extension executed concretely on the bytes derived from interned encodings, RVOLE over it), rounds 1–5, same obligations", "dkls23": "DKLs23 threshold ECDSA, bbot variant (RVOLE over ECBBOT), rounds 1–4 of every cosigner for a 2-party quorum of a 2-of-3 structure (thorough: a CNF structure and a 3-party quorum) with all randomness symbolic: nobody aborts (measure-zero validator refusals excluded), all cosigners report the same R, and the partial signatures satisfy (Σw)·k = (m + r_x·x)·(Σu) with k = dlog R, x = dlog PK, r_x the opaque x-coordinate of R as the library converts it, Σu ≠ 0 — the ECDSA equation for s = Σw/Σu, stated without inversion", "structures/quorums": "threshold, unanimity, CNF, hierarchical, non-ideal gate tree; minimal quorums and minimal+1 (≤3 quorums per structure in quick)", "shares, nonces, zero shares": "symbolic mod the real group order", "messages": "2 concrete messages"},
-			Assumes: []string{"random-oracle idealisation for transcript/commitment hashes (interned handles)", "fresh random draws are non-zero", "the measure-zero refusals the code itself documents are excluded: effective partial public key = identity (retry abort), aggregated s = 0 or R = identity (shown to be the only way an aggregator can refuse)"},
+			Bounds: map[string]any{"boldyreva02": "threshold BLS over the pairing model (G1, G2, GT in discrete-log representation, e([a]g1,[b]g2)=gT^(ab); hash-to-curve outputs = fresh symbolic discrete logs, pairwise distinct): dealer randomness symbolic; keys in G1 and in G2; Basic, MessageAugmentation and POP; every protocol structure incl. the non-ideal one (a holder with two MSP rows); ≤2 quorums per structure in quick: the aggregator accepts the honest partial signatures, the result verifies under the joint key with the standard verifier of the target scheme and equals [x]·H(m); cosigner constructors refuse an unqualified quorum", "protocol": "Lindell22 with the vanilla (configurable) Schnorr variant, both response signs, Fiat–Shamir compiler, round-by-round API", "dkls23-softspoken": "the SoftSpoken variant (ECBBOT base OTs, SoftSpoken OT extension executed concretely on the bytes derived from interned encodings, RVOLE over it), rounds 1–5, same obligations", "dkls23": "DKLs23 threshold ECDSA, bbot variant (RVOLE over ECBBOT), rounds 1–4 of every cosigner for a 2-party quorum of a 2-of-3 structure (thorough: a CNF structure and a 3-party quorum) with all randomness symbolic: nobody aborts (measure-zero validator refusals excluded), all cosigners report the same R, and the partial signatures satisfy (Σw)·k = (m + r_x·x)·(Σu) with k = dlog R, x = dlog PK, r_x the opaque x-coordinate of R as the library converts it, Σu ≠ 0 — the ECDSA equation for s = Σw/Σu, stated without inversion", "structures/quorums": "threshold, unanimity, CNF, hierarchical, non-ideal gate tree; minimal quorums and minimal+1 (≤3 quorums per structure in quick)", "shares, nonces, zero shares": "symbolic mod the real group order", "messages": "2 concrete messages"},
+			Assumes: []string{"random-oracle idealisation for transcript/commitment hashes (interned handles)", "fresh random draws are non-zero", "the measure-zero refusals the code itself documents are excluded: effective partial public key = identity (retry abort), aggregated s = 0 or R = identity (shown to be the only way an aggregator can refuse)",
+				"threshold BLS: the pairing model (see C15); a share component equal to zero (probability 1/q over the dealer's randomness; bls.NewPrivateKey refuses a zero scalar) and a partial signature or proof equal to the identity end the path with a reach marker, the signing path itself must be reachable (MustReach)"},
 			Outside: []string{"Lindell17 (Paillier), CGGMP21", "the pairing itself, hash-to-curve, subgroup membership of decoded points (bls12381 arithmetic is replaced by the bilinear model)", "BIP-340 / Mina variants (parity of an affine coordinate)", "networked runner API", "real curves"},
 		}
 		return c
@@ -55,10 +56,10 @@ var Properties = map[string]PropertyDef{
 	}},
 	"C09": {Cases: C09Cases, Config: func(tier string) Config {
 		return Config{
-			Functions: []string{"vsot.NewSuite/NewSender/NewReceiver", "vsot Sender.Round1/Round3/Round5, Receiver.Round2/Round4/Round6", "dlog/schnorr + fiatshamir proof inside VSOT", "ecbbot.NewSuite/NewSender/NewReceiver, Sender.Round1/Round3, Receiver.Round2", "ecbbot.Popf.Program/Eval, TaggedKeyAgreement", "rvole/bbot Alice.Round1/Round3, Bob.Round2/Round4 (OT-based multiplication over ECBBOT, gadget vector, consistency check)", "hashing.HashIndexLengthPrefixed (real SHA-256 over interned encodings)"},
-			Bounds:    map[string]any{"instances": "Xi = 8 (thorough: up to 24), L = 1..3 (thorough 4) blocks", "choices": "concrete corpus of choice bytes (all-zero, all-one, mixed, single bits)", "randomness": "sender's and receiver's streams symbolic", "rvole": "L = 1 (thorough: 2) multiplications per run, xi = 416 OT instances, Alice's inputs and all randomness symbolic, Bob's choice bits from his (concrete) byte stream: c_i + d_i = a_i·b and Bob's consistency check accepts"},
+			Functions: []string{"vsot.NewSuite/NewSender/NewReceiver", "vsot Sender.Round1/Round3/Round5, Receiver.Round2/Round4/Round6", "dlog/schnorr + fiatshamir proof inside VSOT", "ecbbot.NewSuite/NewSender/NewReceiver, Sender.Round1/Round3, Receiver.Round2", "ecbbot.Popf.Program/Eval, TaggedKeyAgreement", "rvole/bbot Alice.Round1/Round3, Bob.Round2/Round4 (OT-based multiplication over ECBBOT, gadget vector, consistency check)", "hashing.HashIndexLengthPrefixed (real SHA-256 over interned encodings)", "ecbbot ReceiverOutput.ToBitsOutput / SenderOutput.ToBitsOutput", "rvole/softspoken NewSuite/NewAlice/NewBob, Bob.Round1/Round3, Alice.Round2, roTheta/roMu, Round2P2P.Validate", "softspoken.NewSender/NewReceiver and the extension rounds underneath (concrete bytes)"},
+			Bounds:    map[string]any{"ecbbot byte outputs": "ToBitsOutput of both sides for 16- and 32-byte pads: receiver's pad = sender's pad of the chosen branch for every instance and every block (L up to 3), ≠ the other branch, all sender pads distinct, short lengths / keys refused", "rvole/softspoken": "standalone over a fixed corpus of concrete base-OT seeds, L = 1 (thorough 2), xi = 416 rows, Bob's choice bits chosen by the harness (every byte 0xa5; thorough also 0x00 and 0xff), Alice's inputs and randomness symbolic: honest run c_i + d_i = a_i·b and Bob accepts; deviating Alice: one ATilde entry (data column or check column, in a row with β = 0 or β = 1), one η entry shifted by a symbolic δ ≠ 0, or one μ byte flipped ⇒ Bob aborts (2 rows × 3 columns in quick; 5 rows incl. row 100 in thorough)", "instances": "Xi = 8 (thorough: up to 24), L = 1..3 (thorough 4) blocks", "choices": "concrete corpus of choice bytes (all-zero, all-one, mixed, single bits)", "randomness": "sender's and receiver's streams symbolic", "rvole": "L = 1 (thorough: 2) multiplications per run, xi = 416 OT instances, Alice's inputs and all randomness symbolic, Bob's choice bits from his (concrete) byte stream: c_i + d_i = a_i·b and Bob's consistency check accepts"},
 			Assumes:   []string{"random-oracle idealisation: hashes run for real over interned element encodings (provably equal elements ⇒ equal encodings; otherwise different)", "the model group satisfies curves.Curve/curves.Point through a facade with opaque coordinates (symalg/curve.go)", "fresh draws non-zero", "points an honest party transmits are not the identity (the peer's validation refuses the identity; probability Xi·L/q per run; in the RVOLE harness via the engine's generic-non-identity mode)"},
-			Outside:   []string{"SoftSpoken OT extension rounds and rvole/softspoken (E1 covers the consistency check and the bit-level helpers only)", "deviating parties in the OT protocols", "real curves"},
+			Outside:   []string{"the SoftSpoken OT extension with symbolic seeds (it runs concretely here; E1 covers its consistency check and the bit-level helpers)", "deviating parties in the base-OT protocols; deviating Bob in the multiplication", "random sources that return short reads without an error (the model streams always deliver full reads)", "real curves"},
 		}
 	}},
 	"C12": {Cases: C12Cases, Config: func(tier string) Config {
@@ -111,8 +112,9 @@ var Properties = map[string]PropertyDef{
 		c := Config{
 			Functions: []string{"schnorrlike/schnorr.NewScheme/Signer/Verifier", "schnorrlike.SignerTrait.Sign", "schnorrlike.VerifierTrait.Verify", "schnorr.Variant.ComputeNonceCommitment/ComputeChallenge/ComputeResponse", "schnorrlike.ComputeGenericNonceCommitment/ComputeGenericResponse/MakeGenericChallenge", "ecdsa.NewSignature",
 				"bls.NewShortKeyScheme/NewLongKeyScheme", "bls.NewPrivateKey/NewPublicKey/NewSignature/NewProofOfPossession", "bls.Signer.Sign", "bls.Verifier.Verify/AggregateVerify", "bls.Scheme.AggregateSignatures", "bls.VerifyWithProofsOfPossession", "bls.AugmentMessage", "bls coreSign/coreVerify/coreAggregateVerify/popProve/popVerify"},
-			Bounds:  map[string]any{"bls": "BLS over the pairing model (bilinear map on discrete logs, hash-to-curve outputs symbolic and pairwise distinct), keys in G1 and in G2 × Basic / MessageAugmentation / POP × 2 signers (thorough: 3): sign→verify accepts; a signature or an aggregate shifted by any δ≠0 is rejected; acceptance under another key ⇒ equal keys; aggregate of honest signatures verifies; aggregate with a key missing is rejected; POP mode refuses fewer proofs than keys (and none at all); rogue key pk_r = [x]g − pk_victim with an arbitrary claimed proof: acceptance ⇒ the claimed proof IS the proof of possession of pk_r", "private key, nonce, tampering offset": "symbolic over GF(q)", "configurations": "response sign ±, byte order, sha256/sha512, 3 messages"},
-			Assumes: []string{"challenge = real hash of interned handles (random-oracle idealisation): equal hashed values ⇔ equal handles", "fresh nonces are non-zero (probability 1/q excluded)"},
+			Bounds: map[string]any{"bls": "BLS over the pairing model (bilinear map on discrete logs, hash-to-curve outputs symbolic and pairwise distinct), keys in G1 and in G2 × Basic / MessageAugmentation / POP × 2 signers (thorough: 3): sign→verify accepts; a signature or an aggregate shifted by any δ≠0 is rejected; acceptance under another key ⇒ equal keys; aggregate of honest signatures verifies; aggregate with a key missing is rejected; POP mode refuses fewer proofs than keys (and none at all); rogue key pk_r = [x]g − pk_victim with an arbitrary claimed proof: acceptance ⇒ the claimed proof IS the proof of possession of pk_r", "private key, nonce, tampering offset": "symbolic over GF(q)", "configurations": "response sign ±, byte order, sha256/sha512, 3 messages"},
+			Assumes: []string{"challenge = real hash of interned handles (random-oracle idealisation): equal hashed values ⇔ equal handles", "fresh nonces are non-zero (probability 1/q excluded)",
+				"BLS: G1, G2, GT in discrete-log representation with e([a]g1,[b]g2) = gT^(ab) (the pairing model of symalg); hash-to-curve outputs are fresh symbolic discrete logs ∉ {0,1}, pairwise distinct for distinct inputs (random-oracle idealisation); secret keys ≠ 0 as bls.NewPrivateKey requires; an aggregate Σ sk_i·H(m_i) equal to the identity (probability 1/q over the hash outputs; the verifier refuses it) is assumed away; in message-augmentation mode acceptance under another key is possible exactly on a relation between two hash outputs (reach marker, not an obligation)"},
 			Outside: []string{"ECDSA verification/recovery/normalisation (crypto/ecdsa, integer comparison of scalars)", "BIP-340, Mina (parity of an affine coordinate)", "bls12381 arithmetic itself (pairing, hash-to-curve, subgroup checks: replaced by the bilinear model); BLS key generation from a seed (HKDF, concrete)", "published vectors"},
 		}
 		if tier == "thorough" {
